@@ -68,7 +68,8 @@ PROPS = {
                         "cache sizes that force eviction are exercised only by TestC18Eviction because of the known finding it reports"],
         "tests": [{"name": "TestC18Concurrent", "quick": 100, "shards_quick": 4, "thorough": 500, "shards": 12, "race": True},
                   {"name": "TestC18Hammer", "quick": 6, "shards_quick": 3, "thorough": 40, "shards": 8, "race": True},
-                  {"name": "TestC18Eviction", "quick": None, "thorough": None}],
+                  {"name": "TestC18Eviction", "quick": None, "thorough": None},
+                  {"name": "TestC18Recency", "quick": 150, "thorough": 1500, "shards": 2}],
     },
     "C17": {
         "level": "exploration",
@@ -322,10 +323,14 @@ PROPS = {
                 "invalid never occurs, the entity handed back lists exactly the stored merged operations, and a later edit through "
                 "that handle never removes stored operations; the same clauses for identities over version chains read "
                 "independently (remote ahead by 1..6 versions: nothing lost, post = longer chain, new/updated/nothing truthful, the "
-                "identity handed back is the stored one). Non-trivial: a pull that fast-forwarded (s4) or merged diverged "
+                "identity handed back is the stored one). TestC02CachePull: histories through the cache API of two replicas (with "
+                "re-opened and rebuilt caches, small cache sizes): after every RepoCache.Pull the bug handed out by Resolve starts "
+                "with exactly the operations of the local ref, keeps what it had, and its excerpt counts the same comments. "
+                "Non-trivial: a pull that fast-forwarded (s4) or merged diverged "
                 "branches (s5) an existing bug. Distinct: multiset of merge scenarios with branch lengths.",
         "assumptions": ["single-threaded harness: the bare remote equals the just-fetched state"],
-        "tests": [{"name": "TestC02Pull", "quick": 60, "shards_quick": 4, "thorough": 400, "shards": 16}],
+        "tests": [{"name": "TestC02Pull", "quick": 60, "shards_quick": 4, "thorough": 400, "shards": 16},
+                  {"name": "TestC02CachePull", "quick": 40, "shards_quick": 3, "thorough": 300, "shards": 8}],
     },
     "C03": {
         "level": "exploration",
